@@ -7,6 +7,7 @@ import re
 
 from ..common import call, graph_snapshot, remove_scratch, scratch_dir, write_tree
 from ..engine import Result
+from ..refmodel import glob_matches
 from ..impl import build, plan_graph_shards, shard_graphs
 from ..scan import observed, scan
 from ..scanmodel import all_dirs, ancestors, drop_ancestor_edges, model_scan, source
@@ -42,6 +43,9 @@ FEATURE_TREES = [
     # a package name that is a substring of an outer package name
     {"orders": "d", "orders/order": "d", "orders/order/item.py": "f", "orders/order/der": "d", "orders/order/der/x.py": "f", "orders/list.py": "f"},
     # deep chain and a package without __init__.py next to one with
+    # a package named like the root directory itself, and one level deeper a package named like its parent
+    # (top/top, top/top/sub/sub): parent-relative spellings begin with the name the prefix ends in
+    {"top": "d", "top/__init__.py": "f", "top/m.py": "f", "top/n.py": "f", "top/sub": "d", "top/sub/k.py": "f", "top/sub/sub": "d", "top/sub/sub/j.py": "f", "z.py": "f"},
     {"p": "d", "p/__init__.py": "f", "p/q": "d", "p/q/r": "d", "p/q/r/s": "d", "p/q/r/s/t.py": "f", "p/u.py": "f", "v": "d", "v/w.py": "f", "v/empty": "d"},
 ]
 
@@ -56,7 +60,7 @@ def plan(tier, seed):
     gs = plan_graph_shards("A", n_max=4 if tier == "quick" else 5, chunk=16 if tier == "quick" else 64)
     for s in gs:
         shards.append(dict(s, part="seam", bound="seam equivalence " + s["bound"]))
-    return {"shards": shards, "require_nonzero": ["scan:root", "scan:sub", "entry:module", "spelling:parent-relative", "seam", "exclusion-in-other-letter-case"]}
+    return {"shards": shards, "require_nonzero": ["scan:root", "scan:sub", "entry:module", "spelling:parent-relative", "seam", "exclusion-in-other-letter-case", "excluded-directory-with-sub-directories"]}
 
 
 def importable(name):
@@ -193,6 +197,22 @@ def check_tree(entries, res, placement):
                         viol.append(("exclusion-in-other-letter-case-changes-the-architecture",
                                      {"entries": entries, "placement": placement, "module_path": mp_rel, "entry": "path", "spelling": "qualified"},
                                      _js(whole), _js(out[1]) if out[0] == "OK" else list(out[:2])))
+                # "one module per non-excluded file and per non-excluded directory": a directory that is excluded by an
+                # end-anchored pattern (which matches the directory's own path only, not the paths below it)
+                # removes its whole sub-tree - in particular the sub-directories below it
+                nested = sorted(d for d in dirs if d != "top" and any(x != d and x.startswith(d + "/") for x in dirs))[:2]
+                for d in nested:
+                    pat = ("*/" + os.path.basename(d),)
+                    m = model_scan(files, dirs, "top", "top", base, lambda p_, ps=pat: any(glob_matches(g, p_) for g in ps))
+                    out = call(lambda: observed(scan(os.path.join(base, "top"), os.path.join(base, "top"), exclusions=pat)))
+                    if res is not None:
+                        res.transitions += 1
+                        res.traces += 1
+                        res.stats["excluded-directory-with-sub-directories"] += 1
+                    if out[0] != "OK" or out[1][0] != m["modules"]:
+                        viol.append(("modules-below-an-excluded-directory",
+                                     {"entries": entries, "placement": placement, "module_path": mp_rel, "entry": "path", "spelling": "qualified", "exclusions": list(pat)},
+                                     sorted(m["modules"]), sorted(out[1][0]) if out[0] == "OK" else list(out[:2])))
             elif whole and per_entry.get("path"):
                 sub = per_entry["path"]
                 restricted = {(u, v) for (u, v) in drop_ancestor_edges(whole[1]) if u in sub[0] and v in sub[0]}
